@@ -38,6 +38,8 @@ CLAIMS["C04"] = ("In sendRdb every replay goroutine and panic callback reports e
 
 CLAIMS["C16"] = ("Leader: data is sent only under 'follower id = current id' and 'offset the follower sent is not beyond the leader's newest'; the ahead branch sends HANDOVER and returns the hand-over error; the requested offset is replaced only when invalid; CONTINUE frames carry running offset + n. Follower: writers start at the META frame's offset/size; on every path the snapshot writer follows DelRunId ≺ SetRunId and the log writer follows a DelRunId unless the leader's data joins the follower's; every refusal code is a non-nil error on every path of the response handler; every refusal on the leader ends the exchange.", "3/C16")
 
+CLAIMS["C14"] = ("On every path of the unit dispatcher marker ≺ business commands ≺ recovery record (≺ index) are queued on one transaction batcher before its single Dispatch; every journal deletion is dominated (in the function or at every caller) by a successful frontier save; coordinator and start-up rebuild advance the frontier only while the next sequence number is present, from seq+1 stepping by 1 only after a hit; the in-memory resume point is stored after confirmation from the confirmed values; commits are reported only after reply validation; recovery cleanup is bounded by the frontier; sync-mode start picks the greatest end offset.", "3/C14")
+
 NOT_YET = "check not built yet in this revision (planned, see DESIGN.md section 3)"
 
 def main():
